@@ -16,8 +16,11 @@ CMP_OPS = ['<', '>', '==', '>=', '<=', '!=', 'in', 'not in', 'is', 'is not']
 
 
 class Gen:
-	def __init__(self, rnd, max_depth: int = 4, layout: bool = True) -> None:
+	def __init__(self, rnd, max_depth: int = 4, layout: bool = True, friendly: bool = False) -> None:
 		self.rnd = rnd
+		# friendly: stay inside what the node model (not only the grammar) represents: call/index receivers are references or calls,
+		# no `...` as a tuple type argument, `except` always binds a name
+		self.friendly = friendly
 		self.max_depth = max_depth
 		self.layout = layout
 		self.stats = {'op_levels': set(), 'block_depth': 0, 'clauses2': False, 'multiline': False, 'tab': False, 'empty_slots': 0}
@@ -30,7 +33,8 @@ class Gen:
 		return self.rnd.random() < p
 
 	def name(self) -> str:
-		return self.pick(KEYWORD_FREE_NAMES)
+		n = self.pick(KEYWORD_FREE_NAMES)
+		return 'obj' if self.friendly and n in ('self', 'cls') else n
 
 	def join_items(self, items: list[str], trailing_ok: bool = True, force_trailing: bool = False) -> str:
 		"""Comma-joined items, optionally spread over several lines (only ever called inside brackets)."""
@@ -156,8 +160,14 @@ class Gen:
 		base = self.atom(depth - 1) if self.chance(0.3) else self.name()
 		if base[0] in '0123456789-+~' or base.startswith(('lambda', 'not ')):
 			base = f'({base})'
+		if self.friendly and base == '...':
+			base = self.name()
+		literal_base = base[0] in '([{"\'0123456789.' or base[:2] in ('r"', "r'", 'f"', "f'") or base in ('True', 'False', 'None', '...')
 		for _ in range(r.randint(1, 3)):
 			c = r.randint(0, 9)
+			if self.friendly and literal_base:
+				c = 0  # only attribute access on a literal/group receiver
+			literal_base = False
 			if c <= 3:
 				base += '.' + self.pick(ATTRS)
 			elif c <= 7:
@@ -214,7 +224,7 @@ class Gen:
 		if c == 8:
 			return f'dict[{self.type_expr(depth - 1)}, {self.type_expr(depth - 1)}]'
 		if c == 9:
-			return f'tuple[{self.type_expr(depth - 1)}, ...]' if self.chance(0.4) else f'tuple[{self.type_expr(depth - 1)}, {self.type_expr(depth - 1)}]'
+			return f'tuple[{self.type_expr(depth - 1)}, ...]' if self.chance(0.4) and not self.friendly else f'tuple[{self.type_expr(depth - 1)}, {self.type_expr(depth - 1)}]'
 		if c == 10:
 			return f'{self.type_expr(depth - 1)} | None'
 		if c == 11:
@@ -385,7 +395,7 @@ class Gen:
 			out = self.suite('try', depth, level, ind_unit, in_class, in_func)
 			n = r.randint(1, 2)
 			for _ in range(n):
-				out += self.suite(f'except {self.pick(["ValueError", "Exception", "A.Error", "KeyError"])}{" as " + self.pick(["e", "err"]) if self.chance(0.7) else ""}', depth, level, ind_unit, in_class, in_func)
+				out += self.suite(f'except {self.pick(["ValueError", "Exception", "A.Error", "KeyError"])}{" as " + self.pick(["e", "err"]) if self.chance(0.7) or self.friendly else ""}', depth, level, ind_unit, in_class, in_func)
 			if n >= 2:
 				self.stats['clauses2'] = True
 			return out
@@ -410,8 +420,8 @@ class Gen:
 		return text + ('\n' if self.chance(0.8) else '')
 
 
-def gen_module(rnd, profile: str = 'mixed', max_depth: int = 4, layout: bool = True) -> tuple[str, dict]:
-	g = Gen(rnd, max_depth, layout)
+def gen_module(rnd, profile: str = 'mixed', max_depth: int = 4, layout: bool = True, friendly: bool = False) -> tuple[str, dict]:
+	g = Gen(rnd, max_depth, layout, friendly)
 	text = g.module(profile)
 	stats = dict(g.stats)
 	stats['op_levels'] = len(stats['op_levels'])
